@@ -6,7 +6,7 @@ four scipy eigen-routines are wrapped *from outside* by a recorder.  For every c
   - what the module asked the library for (routine, k, sigma, mode, M, a probe x = OPinv(b) of the shift-invert
     operator) and what the library returned (raw W, Q),
   - what the module returned (or the exception class)
-as exact rationals into coq/gen/C11/cases_*.v.  Coq (vm_compute) runs Model/Eig.v: it predicts the dispatch and the
+as exact dyadic numbers (the values of the floats) into coq/gen/C11/cases_*.v.  Coq (vm_compute) runs Model/Eig.v: it predicts the dispatch and the
 state machine of _sparse_eigs (compared with the recorded call, the probe must satisfy (A - sigma B) x = b for the
 model's A - sigma B), re-checks the oracle contract A q = lambda M q on the raw library output, runs the
 post-processing model (sorting function, normalisation loop) on it and compares with the module output at 1e-9.
@@ -578,10 +578,14 @@ def keys_ambiguous(sort, W, Q):
     keys = np.asarray(keys)
     sc = max(1.0, np.abs(keys).max())
     n = len(keys)
+    exact = k in ('default', 'desc', 'rev', 'firstk')     # keys are the recorded floats themselves: only exact ties matter
     for i in range(n):
         for j in range(i):
             a, b = keys[i], keys[j]
-            if np.iscomplexobj(keys):
+            if exact:
+                if a == b:
+                    return True
+            elif np.iscomplexobj(keys):
                 dr, di = abs(a.real - b.real), abs(a.imag - b.imag)
                 if (0 < dr < 1e-9 * sc) or (dr == 0 and di < 1e-9 * sc):
                     return True
@@ -946,8 +950,9 @@ def run(ctx):
         'oracle contracts (premises of the theorems, validated per run on every recorded library result): scipy eigh/eig/eigsh/eigs return '
         '(W, Q) with A q_i = lambda_i M q_i and one column per eigenvalue; LAPACK returns n pairs; the sorting function returns valid indices; '
         'np.sqrt(v)^2 = v',
-        'evaluation uses Q / Gaussian rationals with a 100-bit approximate square root (Base/QMat.v); the theorems use the real sqrt resp. an abstract '
-        's with s*s = v: same model term, two interpretations',
+        'evaluation domain of the model in the case files: dyadic numbers m*2^e (pairs for complex) with exact + - * and division / square '
+        'root rounded to 72 bits (Base/QMat.v); the theorems use the real sqrt resp. an abstract s with s*s = v: same model term, two '
+        'interpretations; float mantissas are written as primitive 63-bit integers in the case files (kernel primitive, evaluation only)',
         'the recorder wraps scipy.linalg.eigh/eig and scipy.sparse.linalg.eigsh/eigs as module attributes (patching from outside, restored after each call)',
     ]
     vlib.audit(ctx)
